@@ -24,7 +24,10 @@ RULEKINDS = ['leaf', 'expr', 'deny-const', 'allow-const', 'unknown-name',
              # a check object that PRINTS like a registered policy name is
              # still a check object: enforce evaluates it, authorize knows
              # no such name
-             'object-printing-like-registered-name']
+             'object-printing-like-registered-name',
+             # a check that fails with an I/O error of its own (a server
+             # that cannot be reached, an unreadable file) when evaluated
+             'faulting-io', 'faulting-lookup']
 EXCKINDS = ['none', 'custom-noargs', 'custom-args', 'custom-kwargs',
             # extras forwarded although no class was requested (a wrapper
             # passing exc=None, action=...): still PolicyNotAuthorized
@@ -40,6 +43,21 @@ class MyExc(Exception):
 
 class OtherExc(Exception):
     pass
+
+
+FAULTS = {'faulting-io': [ConnectionRefusedError, FileNotFoundError,
+                          PermissionError, TimeoutError],
+          'faulting-lookup': [LookupError, ValueError, ArithmeticError]}
+_ALL_FAULTS = tuple(e for v in FAULTS.values() for e in v)
+
+
+def _register_fault():
+    from oslo_policy import _checks, policy
+
+    class FaultCheck(_checks.Check):
+        def __call__(self, target, creds, enforcer, current_rule=None):
+            raise _ALL_FAULTS[int(self.match)]('check cannot be evaluated')
+    policy.register('fault', FaultCheck)
 
 
 class _Raising(dict):
@@ -129,6 +147,21 @@ def _build(ctx, rulekind):
         defaults = [policy.RuleDefault('sym:a', 'sym:b')]
         arg = _parser.parse_rule('sym:a')
         want = _leaf('a')
+    elif rulekind in FAULTS:
+        # which error: chosen under solver control; evaluated only when the
+        # symbolic leaf before it denies
+        which = 0
+        for i, e in enumerate(FAULTS[rulekind][1:], 1):
+            if ctx.bool('fault.%d' % i):
+                which = i
+                break
+        n = _ALL_FAULTS.index(FAULTS[rulekind][which])
+        _register_fault()
+        rules['p'] = 'sym:a or fault:%d' % n
+        rules['r'] = 'sym:a or fault:%d' % n
+        if ctx.bool('fault.via-alias'):
+            rules['p'] = 'rule:r'
+        want = _leaf('a')
     enf = policy.Enforcer(conf, rules=policy.Rules.from_dict(rules),
                           use_conf=False)
     enf.suppress_deprecation_warnings = True
@@ -202,6 +235,10 @@ def run_modes(ctx, rulekind, exckind, via, debug):
                 return ('PolicyNotRegistered', True)
             except MyExc as e:
                 return ('MyExc', e.args == tuple(args) and e.kw == kwargs)
+            except _ALL_FAULTS as e:
+                if rulekind not in FAULTS:
+                    raise
+                return ('Fault', type(e).__name__)
 
         def post(c, t):
             c = dict(c)
@@ -252,6 +289,18 @@ def run_modes(ctx, rulekind, exckind, via, debug):
         falsy = lambda k, v: k == 'ret' and v == ('ret', False)  # noqa
         truthy = lambda k, v: k == 'ret' and v == ('ret', True)  # noqa
         anyexc = lambda k, v: k == 'ret' and v[0] != 'ret'  # noqa
+        if rulekind in FAULTS:
+            # the statement for a check that cannot be evaluated: do_raise
+            # never yields a falsy return, a falsy return without do_raise
+            # is a raise with it, and an allowed request is allowed
+            req(z3.Not(on.where(falsy)), 'modes:falsy-under-do_raise')
+            req(z3.Implies(off.where(falsy), on.where(anyexc)),
+                'modes:falsy-iff-raises')
+            req(off.where(truthy) == want, 'modes:decision')
+            req(on.where(truthy) == want, 'modes:decision-do_raise')
+            ctx.require(state.get(False) == state.get(True),
+                        'modes:inputs-differ-between-modes', detail=detail)
+            return
         # do_raise off never raises
         req(z3.Not(off.where(anyexc)), 'modes:raise-without-do_raise')
         # falsy return  <=>  raise under do_raise
@@ -519,7 +568,10 @@ def evidence(tier):
                    '{enforce, authorize} x debug logging on/off x token '
                    'scope {system, domain, project}; every leaf outcome '
                    'symbolic; do_raise on and off compared on the same '
-                   'input' % (len(RULEKINDS), len(EXCKINDS)),
+                   'input; the two faulting kinds: a custom check raising '
+                   'one of 7 built-in errors (4 OSError kinds, LookupError, '
+                   'ValueError, ArithmeticError) after a symbolic leaf, '
+                   'direct or behind rule:' % (len(RULEKINDS), len(EXCKINDS)),
                    'debug': 'debug dump on/off with unformattable inputs'},
         'bounds_more': {'reuse': 'one credentials object (RequestContext / '
                         'dict / policy-values mapping) enforced, changed in '
